@@ -82,6 +82,8 @@ type Gateway struct {
 	tcp          *simnet.TCPConn   // non-nil: the connection runs over a TCP stream (no acknowledgements, no sequence numbers)
 	RawOf        map[int][]byte    // telegram id -> cEMI bytes to transmit instead of the id frame
 	OnBus        func(cemi []byte) // called for every telegram accepted from the client
+	TCPCutter    func(n int) []int // how each of the gateway's writes is cut into TCP segments (nil: one segment)
+	Busmon       bool              // telegrams for the client are bus monitor indications (the connection is a bus monitor tunnel)
 
 	// behaviour knobs
 	Silent         bool          // answers nothing at all
@@ -134,6 +136,7 @@ func (g *Gateway) StartTCP(lis *simnet.TCPListener) {
 			return
 		}
 		g.tcp = c
+		c.Cutter = g.TCPCutter
 		var stream []byte
 		buf := make([]byte, 4096)
 		for {
@@ -445,6 +448,9 @@ func (g *Gateway) transmit(o *GwOut) {
 	}
 	o.Attempts++
 	c := idCEMI(0x29, o.ID)
+	if g.Busmon {
+		c = busmonCEMI(o.ID)
+	}
 	if raw, ok := g.RawOf[o.ID]; ok {
 		c = raw
 	}
